@@ -56,6 +56,8 @@ type Script struct {
 	Faults  []Fault     `json:"faults,omitempty"`
 	// BindFail: pods whose bind the (stub) binder fails, value = how many times
 	BindFail map[string]int `json:"bind_fail,omitempty"`
+	// StmtProgram drives the verif-stmtfuzz action (C13)
+	StmtProgram []StmtOp `json:"stmt_program,omitempty"`
 }
 
 func (s *Script) JSON() string {
@@ -95,6 +97,7 @@ type Run struct {
 	fired  map[string]int
 	oracle []Oracle
 	Pre    *CycleState // API state captured at the start of the current cycle
+	allocEvents []string // task names of allocate events (used by the statement fuzzer)
 }
 
 type Oracle interface {
@@ -147,6 +150,7 @@ func (r *Run) AfterAction(name string, ssn *framework.Session) {
 	}
 }
 func (r *Run) OnAllocate(ssn *framework.Session, ev *framework.Event) {
+	r.allocEvents = append(r.allocEvents, ev.Task.Name)
 	for _, o := range r.oracle {
 		o.Event(r, ssn, ev, true)
 	}
